@@ -86,7 +86,28 @@ def run(tier, work):
             rp = work.path("viol_%s_%s_%s.ndjson" % (tag, tid, kind))
             vlib.write_ndjson(rp, seg)
             v.report("%s wheel: %s entry %s in trace %s at line %s" % (tag, kind, e, tid, line), rp)
-    cov = {"states": states, "transitions": trans, "traces_validated_against_impl": traces,
+    # 5. through the store: TTL entries under the real ticker path (schedule / re-schedule on TTL update /
+    #    expiry re-check), replayed TLC schedules and free-running histories, validated by StoreTrace
+    import storelib
+    store_traces = 0
+    for (kind, env, fname, test) in (("replay", None, "store_replay.ndjson", "TestVerif_StoreReplay"),
+                                     ("free", {"VERIF_N": 24 if thorough else 6}, "store_free.ndjson", "TestVerif_StoreFree"),
+                                     ("time", {"VERIF_N": 200 if thorough else 40}, "store_time.ndjson", "TestVerif_StoreTime")):
+        e = dict(env or {})
+        if kind == "replay":
+            sd, _n = storelib.tlc_sim(work, "StoreSim_acct.cfg", 1200 if thorough else 150, 61, "c04acct")
+            e["VERIF_IN"] = sd
+        o2 = storelib.run_driver(work, test, "c04_" + kind, env=e, timeout=1800)
+        tf2 = os.path.join(o2, fname)
+        res2 = storelib.validate(work, tf2, "c04_" + kind)
+        store_traces += res2["traces"]
+        for x in res2["viol"]:
+            # a resident entry with a deadline that is not on the wheel will never be reclaimed: also a C04 matter
+            if x[0] == "C02" and x[3] == "resident_entry_with_deadline_not_on_wheel":
+                x[0] = "C04"
+        storelib.report(v, work, "C04", tf2, res2)
+    traces += store_traces
+    cov = {"states": states, "transitions": trans, "traces_validated_against_impl": traces, "store_level_traces": store_traces,
            "behaviours_replayed": nbeh, "advance_steps_validated": advances,
            "model_divergences": total_div, "samples": samples, "exhaustive": True,
            "constants": "scaled wheel 4/4/2/2/1 slots, shifts 1/3/5/6/7; see spec/TimerWheelMC_*.cfg"}
